@@ -267,15 +267,36 @@ def a_exec(root_arg, ctxname, kind, factory, path):
     return provs, listing, comps
 
 
+def root_argument(T, root, case):
+    """The root string handed to the context: plain, with a trailing slash, or a symlink to the root
+    (T/rootlink -> root, created by build_universe)."""
+    form = case.get("root_form") or ("slash" if case.get("slash") else "plain")
+    if form == "plain":
+        return root
+    if form == "slash":
+        return root + "/"
+    if form == "symlink":
+        return os.path.join(T, "rootlink")
+    if form == "symlink-slash":
+        return os.path.join(T, "rootlink") + "/"
+    raise ValueError(form)
+
+
 def a_check(T, root, case, realroot=None, lcache=None):
     """One containment case on an existing universe. Returns (violations, info)."""
-    root_arg = root + "/" if case["slash"] else root
+    root_arg = root_argument(T, root, case)
     realroot = realroot or os.path.realpath(root)
     provs, listing, comps = a_exec(root_arg, case["ctx"], case["kind"], case["factory"], case["path"])
     viols = []
     served_in = served_out = unreadable = 0
     try:
         for p in provs:
+            sl = None
+            if case["kind"] == "Text":
+                try:
+                    sl = next(iter(p.stream()), "")     # second public read channel (what `find` uses), before .content caches
+                except Exception:
+                    sl = None
             try:
                 content = p.content
             except Exception:
@@ -287,6 +308,8 @@ def a_check(T, root, case, realroot=None, lcache=None):
             marker_inside = line.startswith("AT ") and line[3:].split("/")[0] == "root"
             if marker_inside != (cls == "inside"):
                 raise RuntimeError("containment reference and content marker disagree: %r %r %r" % (case, rp, line))
+            if sl is not None and sl != line:
+                raise RuntimeError("stream() and content disagree: %r %r %r" % (case, sl, line))
             if cls == "inside":
                 served_in += 1
             else:
@@ -304,14 +327,37 @@ def a_check(T, root, case, realroot=None, lcache=None):
         lst_out = lcache.get(key) if lcache is not None else None
         if lst_out is None:
             if case["factory"].startswith("listdir"):
-                lst_out = 0 if E.beneath(real(os.path.join(root, case["path"])), realroot) else 1
+                lst_out = 0 if E.beneath(real(os.path.join(root, case["path"].lstrip("/"))), realroot) else 1
             else:
                 lst_out = 1 if any(not E.beneath(real(os.path.join(root, i)), realroot) for i in listing) else 0
             if lcache is not None:
                 lcache[key] = lst_out
+    if lst_out:
+        # statement: "a file datasource never yields content whose real location lies outside the root" - the entries of a
+        # directory are that directory's content; a listing taken outside the root is reported (own clause, own features)
+        fam = "listdir" if case["factory"].startswith("listdir") else "listglob"
+        viols.append(("containment:listing-served-from-outside-root",
+                      "every listed directory entry lies at or beneath %s" % show(realroot, T),
+                      {"listing": [str(x) for x in listing][:6]}, {"listing_factory": fam}))
     info = {"served_in": served_in, "served_out": served_out, "unreadable": unreadable,
             "providers": len(provs), "listing_outside": lst_out}
     return viols, info
+
+
+QUICK_SYMLINK_ROOT_TARGETS = ["..", "../root2/secret", "{T}/secret", "{T}/root/f", "{B}"]
+EXTRA_LIT = ["", ".", "/", "//f", "./f", "d/./f", "d//f", "f/", "f/.", "d/"]     # empty / degenerate spellings
+META = ["?", "[dfl]", "root?", "r*", "*[!x]", "[s]ecret"]
+
+
+def meta_patterns(n):
+    out = []
+    for k in range(1, n + 1):
+        for pos in range(k):
+            for t in itertools.product(SEG, repeat=k - 1):
+                for m in META:
+                    segs = list(t[:pos]) + [m] + list(t[pos:])
+                    out.append("/".join(segs))
+    return out
 
 
 def designates_outside(root, realroot, path, cache):
@@ -319,7 +365,7 @@ def designates_outside(root, realroot, path, cache):
     v = cache.get(path)
     if v is None:
         full = os.path.join(root, path)
-        if "*" in path:
+        if _glob.has_magic(path):
             cands = _glob.glob(full)
         else:
             cands = [full] if os.path.exists(full) else []
@@ -334,14 +380,19 @@ def run_A(unit, tier, res):
     with scratch("c06a") as base:
         T, root = E.build_universe(base, unit["links"])
         realroot = os.path.realpath(root)
-        lit = list(all_paths(SEG, 1, full_n))
-        star = list(all_paths(SEG_STAR, 1, full_n))
+        lit = EXTRA_LIT + list(all_paths(SEG, 1, full_n))
+        star = EXTRA_LIT + list(all_paths(SEG_STAR, 1, full_n))
         # one segment longer: only those that designate something (a path that does not exist serves nothing)
         lit_more = [p for p in all_paths(SEG, full_n + 1, more_n) if os.path.lexists(os.path.join(root, p))]
         star_more = [p for p in all_paths(SEG_STAR, full_n + 1, more_n)
                      if ("*" in p and _glob.glob(os.path.join(root, p))) or
                      ("*" not in p and os.path.lexists(os.path.join(root, p)))]
-        res.stat("A_longer_paths_existing", len(lit_more) + len(star_more))
+        # glob metacharacters inside a segment: every path of <= n segments with exactly one segment replaced by one of
+        # META, kept where the pattern matches something (a pattern that matches nothing serves nothing)
+        meta = [p for p in meta_patterns(full_n) if _glob.glob(os.path.join(root, p))]
+        star_more = star_more + meta
+        res.stat("A_longer_paths_existing", len(lit_more) + len(star_more) - len(meta))
+        res.stat("A_metachar_patterns_matching", len(meta))
         cache = {}
         lcache = {}
         for ctxname in CTXS:
@@ -349,7 +400,7 @@ def run_A(unit, tier, res):
                 for factory in FACT_LIT + FACT_GLOB:
                     plist = (star + star_more) if factory in FACT_GLOB else (lit + lit_more)
                     for path in plist:
-                        case = {"part": "A", "links": unit["links"], "slash": unit["slash"], "ctx": ctxname,
+                        case = {"part": "A", "links": unit["links"], "root_form": unit["root_form"], "ctx": ctxname,
                                 "kind": kind, "factory": factory, "path": path}
                         viols, info = a_check(T, root, case, realroot, lcache)
                         exists, outside = designates_outside(root, realroot, path, cache)
@@ -368,7 +419,7 @@ def run_A(unit, tier, res):
                             res.stat("listing_outside_root", 1)
                         for clause, exp, obs, feats in viols:
                             res.violation(clause, case, exp, obs, feats)
-        res.samples.append({"part": "A", "links": unit["links"], "slash": unit["slash"], "ctx": "HostContext",
+        res.samples.append({"part": "A", "links": unit["links"], "root_form": unit["root_form"], "ctx": "HostContext",
                             "kind": "Text", "factory": "simple_file", "path": "d/../l"})
 
 
@@ -475,12 +526,15 @@ def b_build(variant, kind, filtered):
         b.add("s1", sf.first_file(["/g/a", "/g/b"], context=HC, kind=k), "first", ["/g/a", "/g/b"], "file", raw=(kind == "Raw"), **rpkw)
         b.add("s2", sf.first_file(["/g/ab", "/g/a"], context=HC, kind=k), "first", ["/g/ab", "/g/a"], "file", raw=(kind == "Raw"), **rpkw)
     elif variant == "foreach_collect":
-        src = b.source(["a", "ab", "b"])
+        src = b.source(["a", "ab", "b", ""])           # the empty element designates the directory itself: never a provider
         b.add("s1", sf.foreach_collect(src, "/g/%s", context=HC, kind=k), "multi", ["/g/a", "/g/ab", "/g/b"], "file",
               multi_output=True, raw=(kind == "Raw"), **rpkw)
     elif variant == "simple_command":
         b.add("s1", sf.simple_command("/bin/echo a b", context=HC), "single", ["/bin/echo a b"], "command", reports=True, **rpkw)
         b.add("s2", sf.simple_command("/bin/echo ab", context=HC), "single", ["/bin/echo ab"], "command", reports=True, **rpkw)
+        # quoting and a doubled blank: the deny rule works on the command STRING, execution on its shlex split
+        b.add("s3", sf.simple_command("/bin/echo 'a  b' c", context=HC), "single", ["/bin/echo 'a  b' c"], "command",
+              reports=True, **rpkw)
     elif variant == "command_with_args":
         b.add("s1", sf.command_with_args("/bin/echo %s", b.source("a b"), context=HC), "single", ["/bin/echo a b"], "command", **rpkw)
         b.add("s2", sf.command_with_args("/bin/echo %s %s", b.source(("ab", "c")), context=HC), "single", ["/bin/echo ab c"],
@@ -511,7 +565,8 @@ def b_build(variant, kind, filtered):
 B_ITEMS = {
     "simple_file": ["/g/a", "/g/ab"], "glob_file": ["/g/a", "/g/ab", "/g/b"], "first_file": ["/g/a", "/g/ab", "/g/b"],
     "foreach_collect": ["/g/a", "/g/ab", "/g/b"],
-    "simple_command": ["/bin/echo a b", "/bin/echo ab"], "command_with_args": ["/bin/echo a b", "/bin/echo ab c"],
+    "simple_command": ["/bin/echo a b", "/bin/echo ab", "/bin/echo 'a  b' c"],
+    "command_with_args": ["/bin/echo a b", "/bin/echo ab c"],
     "foreach_execute": ["/bin/echo a b", "/bin/echo ab", "/bin/echo a"],
     "container_execute": ["/usr/bin/env exec c1 echo a b", "/usr/bin/env exec c12 echo a b"],
     "container_collect": ["/usr/bin/env exec c1 cat /g/a", "/usr/bin/env exec c1 cat /g/ab", "/usr/bin/env exec c12 cat /g/a"],
@@ -526,8 +581,33 @@ def b_entries(variant):
             out.append(it[:n])
         out.append(it + " x")
         out.append(it + "x")
+    out += ["", " "]            # falsy / blank entries: deny nothing (no produced item starts with a blank)
     seen = set()
     return [e for e in out if not (e in seen or seen.add(e))]
+
+
+def b_prefix_triples(variant, tier):
+    """Chains of three entries that are all string prefixes of one produced item c: a < d < b with d denying c and
+    a, b not denying (a: mid-word prefix of d; b: d plus a trailing blank / plus a mid-word part of the next word).
+    quick: a = d[:-1]; thorough: every non-denying prefix of d.  All 6 table orders are run for each."""
+    etype = "file" if variant in FILE_VARIANTS else "command"
+    out, seen = [], set()
+    for it in B_ITEMS[variant]:
+        pre = [it[:n] for n in range(1, len(it) + 1)]
+        den = [e for e in pre if ref_denied(it, [e], etype)]
+        for d in den:
+            shorter = [e for e in pre if len(e) < len(d) and not ref_denied(it, [e], etype)]
+            a_set = shorter if tier == "thorough" else shorter[-1:]
+            b_set = [e for e in (it[:len(d) + 1], it[:len(d) + 2]) if len(e) > len(d) and not ref_denied(it, [e], etype)]
+            if not b_set:
+                b_set = [d + "x"]
+            for a in a_set:
+                for b in b_set:
+                    key = (a, d, b)
+                    if key not in seen:
+                        seen.add(key)
+                        out.append([a, d, b])
+    return out
 
 
 def b_prefix_pairs(variant):
@@ -635,13 +715,13 @@ def b_feed(feed, etype, entries, hashes=None):
     from mc.forcedhash import HStr
     I = imp()
     bl = I["blacklist"]
-    table = bl._FILE_FILTERS if etype == "file" else bl._COMMAND_FILTERS
     if not entries:
         return
-    if table:
-        raise RuntimeError("deny table not empty before the case: %r" % (sorted(table),))
     hashes = list(hashes) if hashes is not None else list(range(len(entries)))
     objs = [HStr(t, h) for t, h in zip(entries, hashes)]
+    want = [t for _h, t in sorted(zip(hashes, entries))]
+    if [str(x) for x in set(objs)] != want:             # the forced-hash premise, checked on a fresh small set
+        raise RuntimeError("forced iteration order not obtained: %r != %r" % ([str(x) for x in set(objs)], want))
     if feed == "direct":
         for o in objs:
             (bl.add_file if etype == "file" else bl.add_command)(o)
@@ -649,26 +729,27 @@ def b_feed(feed, etype, entries, hashes=None):
         I["collect"].apply_blacklist({"files" if etype == "file" else "commands": objs})
     else:
         raise ValueError(feed)
-    want = [t for _h, t in sorted(zip(hashes, entries))]
-    if [str(x) for x in table] != want:
-        raise RuntimeError("forced iteration order not obtained: %r != %r" % ([str(x) for x in table], want))
 
 
 def b_judge(specs, entries, etype, obs, root):
-    """Compares an observation with the reference model. specs: list of spec dicts. Returns violations."""
+    """Compares an observation with the reference model. specs: list of spec dicts; entries: list (of type `etype`)
+    or a dict {"file": [...], "command": [...]}. Returns violations."""
+    import shlex
+    ents = entries if isinstance(entries, dict) else {etype: list(entries)}
+    file_entries, cmd_entries = list(ents.get("file", [])), list(ents.get("command", []))
     viols = []
     denied_items = set()
     for s in specs:
         for it in s["items"]:
-            if s["etype"] == etype and ref_denied(it, entries, etype):
+            if ref_denied(it, ents.get(s["etype"], []), s["etype"]):
                 denied_items.add(it)
     for s in specs:
-        exp = ref_expected(s, entries if s["etype"] == etype else [])
+        exp = ref_expected(s, ents.get(s["etype"], []))
         got = [it for it, _how in obs["got"].get(s["name"], [])]
         for it in got:
             if it in denied_items:
                 viols.append(("deny:denied-item-yields-provider", {"spec": s["name"], "providers": exp},
-                              {"spec": s["name"], "providers": got}, {"denied_item_kind": etype}))
+                              {"spec": s["name"], "providers": got}, {"denied_item_kind": s["etype"]}))
                 break
         missing = [it for it in exp if it not in got]
         if missing:
@@ -681,15 +762,33 @@ def b_judge(specs, entries, etype, obs, root):
         if s.get("reports") and s["sem"] == "single" and s["items"][0] in denied_items and s["name"] not in obs["blacklisted"]:
             viols.append(("deny:denied-spec-not-reported", {"BLACKLISTED_SPECS contains": s["name"]},
                           {"BLACKLISTED_SPECS": obs["blacklisted"]}, {}))
-    cmd_entries = entries if etype == "command" else []
-    file_entries = entries if etype == "file" else []
-    for line in obs["lines"]:
+    # executed command lines: a logged argv is attributed to the produced command string it is the shlex split of
+    # (falls back to the blank-joined argv), then judged by the rule on the STRING
+    by_argv = {}
+    for s in specs:
+        if s["etype"] == "command":
+            for it in s["items"]:
+                try:
+                    by_argv.setdefault(tuple(shlex.split(it)), it)
+                except ValueError:
+                    pass
+    for argv in obs["argvs"]:
+        line = by_argv.get(tuple(argv), " ".join(argv))
         if ref_denied(line, cmd_entries, "command"):
             viols.append(("deny:denied-command-executed", "no command line matching %r" % (cmd_entries,), {"executed": line}, {}))
-    denied_abs = set(root + e for e in file_entries)
+    denied_abs = set(root + e for e in file_entries if e.startswith("/"))
+    denied_real = set(os.path.realpath(p) for p in denied_abs if os.path.isfile(p))
+    for it, _how in [x for s in specs if s["etype"] == "file" for x in obs["got"].get(s["name"], [])]:
+        # the statement speaks of the FILE: a provider whose path is the denied path up to lexical noise (//, /./, dir/..)
+        if it not in denied_items and os.path.normpath(root + it) in denied_abs:
+            viols.append(("deny:denied-file-served-under-other-spelling", "no provider for %r under any spelling" % (file_entries,),
+                          {"provider_path": it}, {"spelling": "lexical"}))
     for p in obs["opens"]:
         if p in denied_abs:
             viols.append(("deny:denied-file-opened", "no open() of %r" % (file_entries,), {"opened": "<root>" + p[len(root):]}, {}))
+        elif os.path.normpath(p) in denied_abs:
+            viols.append(("deny:denied-file-served-under-other-spelling", "no open() of %r under any spelling" % (file_entries,),
+                          {"opened": "<root>" + p[len(root):]}, {"spelling": "lexical"}))
     for argv in obs["argvs"] + obs["execs"]:
         if any(a in denied_abs for a in argv):
             viols.append(("deny:denied-file-read-by-process", "no process reads %r" % (file_entries,),
@@ -697,29 +796,155 @@ def b_judge(specs, entries, etype, obs, root):
     return viols
 
 
-ALIASES = ["/g/../g/a", "/g//a", "/./g/a", "/ga_link"]
+def symlink_alias_opens(obs, entries, root):
+    """Counted only (the statement does not say whether denying a path also denies other NAMES linked to it)."""
+    denied_abs = set(root + e for e in entries)
+    denied_real = set(os.path.realpath(p) for p in denied_abs)
+    return sum(1 for p in obs["opens"] if p not in denied_abs and os.path.normpath(p) not in denied_abs and real(p) in denied_real)
+
+
+ALIASES = ["/g/../g/a", "/g//a", "/./g/a", "//g/a", "/g/./a", "/g/a/", "/ga_link"]
 
 
 def b4_check(case):
-    """Measurement only (weaker reading, see module docstring): a denied file reached under another spelling.
-    case: {"part":"B4","alias": one of ALIASES, "kind": "Text"|"Raw"}; the deny entry is always the file entry /g/a."""
+    """A denied file (/g/a) designated under another spelling by every file factory.
+    case: {"part":"B4","factory", "alias": one of ALIASES, "kind": "Text"|"Raw"}.  Lexical aliases are judged by b_judge
+    (clause deny:denied-file-served-under-other-spelling); the symlink alias is only counted."""
     I = imp()
+    sf, HC = I["sf"], I["cx"].HostContext
+    alias, k = case["alias"], kind_class(case["kind"])
     with scratch("c06b") as base:
         T, root = E.build_universe(base, links=[["ga_link", "g/a"]], extra_files=B_FILES)
         with E.GlobalState():
             b = Built()
-            b.add("s1", I["sf"].simple_file(case["alias"], context=I["cx"].HostContext, kind=kind_class(case["kind"])),
-                  "single", ["/" + case["alias"].lstrip("/")], "file", raw=(case["kind"] == "Raw"))
+            f = case["factory"]
+            raw = case["kind"] == "Raw"
+            if f == "simple_file":
+                b.add("s1", sf.simple_file(alias, context=HC, kind=k), "single", [], "file", raw=raw)
+            elif f == "first_file":
+                b.add("s1", sf.first_file([alias], context=HC, kind=k), "first", [], "file", raw=raw)
+            elif f == "glob_file":
+                b.add("s1", sf.glob_file(alias, context=HC, kind=k), "multi", [], "file", multi_output=True, raw=raw)
+            elif f == "foreach_collect":
+                b.add("s1", sf.foreach_collect(b.source([alias]), "%s", context=HC, kind=k), "multi", [], "file",
+                      multi_output=True, raw=raw)
+            else:
+                raise ValueError(f)
             b.finish()
             try:
                 I["blacklist"].add_file("/g/a")
                 obs = b_observe(b, root, base)
                 viols = b_judge([dict(x) for x in b.specs], ["/g/a"], "file", obs, root)
+                reached = symlink_alias_opens(obs, ["/g/a"], root)
             finally:
                 b.dispose()
-        denied_real = os.path.realpath(root + "/g/a")
-        reached = sum(1 for p in obs["opens"] if p != root + "/g/a" and real(p) == denied_real)
-    return viols, {"nontrivial": bool(reached), "outcome": "B4:%s:%d" % (case["alias"], reached), "alias_reached": reached}
+    served = sum(len(v) for v in obs["got"].values())
+    return viols, {"nontrivial": bool(served), "outcome": "B4:%s:%s:%d:%d" % (case["factory"], alias, served, len(viols)),
+                   "alias_reached": reached}
+
+
+def b5_build():
+    """One spec set holding file and command specs of several kinds at once (for mixed redaction configurations)."""
+    I = imp()
+    sf, HC = I["sf"], I["cx"].HostContext
+    b = Built()
+    b.add("f1", sf.simple_file("/g/a", context=HC), "single", ["/g/a"], "file", reports=True)
+    b.add("f2", sf.glob_file("/g/*", context=HC), "multi", ["/g/a", "/g/ab", "/g/b"], "file", multi_output=True)
+    b.add("f3", sf.first_file(["/g/ab", "/g/b"], context=HC, kind=I["sf"].RawFileProvider), "first", ["/g/ab", "/g/b"], "file", raw=True)
+    b.add("c1", sf.simple_command("/bin/echo a b", context=HC), "single", ["/bin/echo a b"], "command", reports=True)
+    b.add("c2", sf.foreach_execute(b.source(["a b", "ab"]), "/bin/echo %s", context=HC), "multi",
+          ["/bin/echo a b", "/bin/echo ab"], "command", multi_output=True)
+    b.add("c3", sf.container_collect(b.source([("img", "env", "c1", "/g/a")]), context=HC), "multi",
+          ["/usr/bin/env exec c1 cat /g/a"], "command", multi_output=True)
+    b.add("k1", sf.simple_file("/g/b", context=HC), "single", ["/g/b"], "file", reports=True)
+    return b.finish()
+
+
+B5_FILES = [[], ["/g/a"], ["/g/ab", "/g/a"], ["/bin/echo a b"], [""]]
+B5_COMMANDS = [[], ["/bin/echo a"], ["/bin/echo", "/bin/echo ab"], ["/g/a"], ["/usr/bin/env exec c1 cat"]]
+B5_COMPONENTS = [[], ["<k1>"], ["<k1>", "<unknown>"], ["<f2>", "<c2>"]]
+B5_EXTRA = [{}, {"patterns": ["canned"], "keywords": ["line"]}]
+
+
+def b5_check(case):
+    """A mixed redaction configuration through collect.apply_blacklist: files + commands + components (+ patterns /
+    keywords, which must not affect what is collected) at once.  An entry under the wrong key (a path under `commands`,
+    a command under `files`) denies nothing.
+    case: {"part":"B5","files":[..],"commands":[..],"components":[placeholders <name>/<unknown>],"extra":{..}}"""
+    I = imp()
+    dr = I["dr"]
+    with scratch("c06b") as base:
+        T, root = E.build_universe(base, extra_files=B_FILES)
+        with E.GlobalState():
+            built = b5_build()
+            try:
+                names = dict((sp["name"], dr.get_name(sp["impl"])) for sp in built.specs)
+                comps, disabled = [], set()
+                for c in case["components"]:
+                    if c == "<unknown>":
+                        comps.append(names["k1"] + "_nope")
+                    else:
+                        comps.append(names[c.strip("<>")])
+                        disabled.add(c.strip("<>"))
+                cfg = {"files": list(case["files"]), "commands": list(case["commands"]), "components": comps}
+                cfg.update(case.get("extra") or {})
+                I["collect"].apply_blacklist(cfg)
+                watch = [("impl:" + sp["name"], sp["impl"]) for sp in built.specs]
+                obs = b_observe(built, root, base, watch=watch)
+                live = [dict(sp) for sp in built.specs if sp["name"] not in disabled]
+                viols = b_judge(live, {"file": case["files"], "command": case["commands"]}, None, obs, root)
+                for sp in built.specs:
+                    if sp["name"] in disabled:
+                        if ("impl:" + sp["name"]) in obs["entered"]:
+                            viols.append(("deny:disabled-component-body-entered", "body of %s never entered" % sp["name"],
+                                          {"entered": obs["entered"]}, {}))
+                        if obs["got"].get(sp["name"]):
+                            viols.append(("deny:denied-item-yields-provider", {"spec": sp["name"], "providers": []},
+                                          {"spec": sp["name"], "providers": obs["got"][sp["name"]]}, {"denied_item_kind": "component"}))
+                        if sp["name"] not in obs["blacklisted"]:
+                            viols.append(("deny:denied-spec-not-reported", {"BLACKLISTED_SPECS contains": sp["name"]},
+                                          {"BLACKLISTED_SPECS": obs["blacklisted"]}, {}))
+            finally:
+                built.dispose()
+    nkeys = sum(1 for k in ("files", "commands", "components") if case[k])
+    n_items = sum(len(v) for v in obs["got"].values())
+    return viols, {"nontrivial": nkeys >= 2, "outcome": "B5:%d:%d:%d" % (nkeys, n_items, len(obs["lines"])),
+                   "executed": len(obs["lines"]), "opened": len(obs["opens"])}
+
+
+def b6_check(case):
+    """History on ONE spec set in one process: evaluate, extend the deny list through the public API, evaluate again
+    (fresh broker each time) - a verdict cached from an earlier evaluation would surface here.
+    case: {"part":"B6","variant","kind","feed","steps": [entry or null, ...]} - step i adds its entry (if any), then evaluates."""
+    variant, etype = case["variant"], ("file" if case["variant"] in FILE_VARIANTS else "command")
+    viols = []
+    outs = []
+    with scratch("c06b") as base:
+        T, root = E.build_universe(base, extra_files=B_FILES)
+        with E.GlobalState():
+            built = b_build(variant, case["kind"], False)
+            try:
+                entries = []
+                for i, e in enumerate(case["steps"]):
+                    if e is not None:
+                        b_feed(case["feed"], etype, [e], [len(entries)])
+                        entries.append(e)
+                    del imp()["blacklist"].BLACKLISTED_SPECS[:]          # public list, reported per evaluation
+                    obs = b_observe(built, root, base)
+                    for v in b_judge([dict(x) for x in built.specs], entries, etype, obs, root):
+                        viols.append((v[0], v[1], dict(v[2], step=i), v[3]))
+                    outs.append(sum(len(v) for v in obs["got"].values()))
+            finally:
+                built.dispose()
+    return viols, {"nontrivial": len(set(outs)) > 1, "outcome": "B6:%s:%s" % (variant, ">".join(str(o) for o in outs))}
+
+
+def b6_steps(variant):
+    """null -> d ; n -> d ; d -> d2 ; d -> null (re-evaluate) for the denying exact entries d, d2 and a non-denying prefix n."""
+    items = B_ITEMS[variant]
+    d, d2 = items[0], items[1] if len(items) > 1 else items[0] + " x"
+    n = d[:-1]
+    return [[None, d], [n, d], [d, d2], [d, None], [None, n, d], [d2, d, None]]
 
 
 def b1_check(case, env=None):
@@ -940,6 +1165,10 @@ def run_B(unit, tier, res):
         for p in pairs:                     # both iteration orders of the deny table
             sets.append((p, [0, 1]))
             sets.append((p, [1, 0]))
+        triples = b_prefix_triples(unit["variant"], tier)
+        for t in triples:                   # all six iteration orders
+            for perm in itertools.permutations(range(3)):
+                sets.append((t, list(perm)))
         with scratch("c06b") as base:       # the deny-list cases never modify the universe: one per unit
             T, root = E.build_universe(base, extra_files=B_FILES)
             for entries, hashes in sets:
@@ -947,15 +1176,31 @@ def run_B(unit, tier, res):
                         "feed": unit["feed"], "entries": entries, "hashes": hashes}
                 _record(res, case, lambda c: b1_check(c, (base, T, root)))
         res.stat("B_entry_pairs_both_orders", len(pairs))
+        res.stat("B_entry_triples_all_orders", len(triples))
     elif sub == "B3":
         for variant in FILE_VARIANTS + CMD_VARIANTS:
             for kind in (KINDS if variant in FILE_VARIANTS else ["Text"]):
                 case = {"part": "B3", "variant": variant, "kind": kind, "target": unit["target"]}
                 _record(res, case, b3_check)
+    elif sub == "B5":
+        for fi in B5_FILES:
+            for co in B5_COMMANDS:
+                for cm in B5_COMPONENTS:
+                    for ex in B5_EXTRA:
+                        if ex and not (fi and co):
+                            continue
+                        _record(res, {"part": "B5", "files": fi, "commands": co, "components": cm, "extra": ex}, b5_check)
+    elif sub == "B6":
+        for variant in FILE_VARIANTS + CMD_VARIANTS:
+            for kind in (KINDS if variant in FILE_VARIANTS else ["Text"]):
+                for feed in ("direct", "apply_blacklist"):
+                    for steps in b6_steps(variant):
+                        _record(res, {"part": "B6", "variant": variant, "kind": kind, "feed": feed, "steps": steps}, b6_check)
     elif sub == "B4":
-        for alias in ALIASES:
-            for kind in KINDS:
-                _record(res, {"part": "B4", "alias": alias, "kind": kind}, b4_check)
+        for f in FILE_VARIANTS:
+            for alias in ALIASES:
+                for kind in KINDS:
+                    _record(res, {"part": "B4", "factory": f, "alias": alias, "kind": kind}, b4_check)
     elif sub == "B2":
         for tgt in REAL_TARGETS:
             case = {"part": "B2", "spec": unit["spec"], "target": tgt}
@@ -971,7 +1216,7 @@ def _record(res, case, fn):
         if info.get(k):
             res.stat("B_" + k, info[k])
     if info.get("alias_reached"):
-        res.stat("denied_file_reached_via_alias", 1)
+        res.stat("denied_file_reached_via_symlink_alias", 1)
     for v in viols:
         clause, exp, obs = v[0], v[1], v[2]
         res.violation(clause, case, exp, obs, v[3] if len(v) > 3 else {})
@@ -981,7 +1226,8 @@ def _record(res, case, fn):
 # Part C - persistence
 # =============================================================================================
 
-SAVE_AS = [None, "x", "dir/", "ABS"]       # ABS: absolute-looking path that points into the scratch area (never a real /x)
+SAVE_AS = [None, "", "/", "x", "dir/", "ABS"]       # ABS: absolute-looking path that points into the scratch area (never a real /x)
+CIDS = ["c1", "..", "../..", "a/b", "CABS"]      # container ids; CABS: an absolute path inside the scratch area
 C_FILE_FACTORIES = ["simple_file", "first_file", "glob_file", "foreach_collect"]
 CMD_TOKENS = ["/", "..", " ", ";", "$", "a", "L300"]
 LABEL_SEG = {"quick": ["..", "d", "f"], "thorough": ["..", "d", "f", "root"]}
@@ -1000,6 +1246,14 @@ def save_as_value(sa, T):
     if sa == "ABS":
         return os.path.join(T, "abs", "x")
     return sa
+
+
+def cid_value(cid, T):
+    if cid is None:
+        return "c1"
+    if cid == "CABS":
+        return os.path.join(T, "cabs")
+    return cid
 
 
 def c_add_spec(b, name, case, T):
@@ -1035,12 +1289,12 @@ def c_add_spec(b, name, case, T):
             b.add(name, sf.foreach_execute(b.source([expand_tokens(case["tokens"]), "plain"]), "/bin/echo %s", context=HC),
                   "multi", [], "command", multi_output=True)
         elif f == "container_execute":
-            b.add(name, sf.container_execute(b.source([("img", "env", "c1")]), cmd.replace("%", "%%"), context=HC),
+            b.add(name, sf.container_execute(b.source([("img", "env", cid_value(case.get("cid"), T))]), cmd.replace("%", "%%"), context=HC),
                   "multi", [], "command", multi_output=True)
         else:
             raise ValueError(f)
     elif fam == "container_file":
-        b.add(name, sf.container_collect(b.source([("img", "env", "c1", "/" + case["path"])]), context=HC),
+        b.add(name, sf.container_collect(b.source([("img", "env", cid_value(case.get("cid"), T), "/" + case["path"])]), context=HC),
               "multi", [], "command", multi_output=True)
     elif fam == "datasource_provider":
         path = case["path"]
@@ -1141,6 +1395,11 @@ def c_check_on(base, T, root, case):
     if outside:
         viols.append(("persist:file-created-outside-output-dir", "every created file beneath T/o1/o2/out",
                       {"created_outside": outside}, c_features(case, outside)))
+    if dirs_out:
+        # title of the property: "writes only to the archive" - a directory made outside the output directory is a write
+        viols.append(("persist:directory-created-outside-output-dir", "every created directory beneath T/o1/o2/out",
+                      {"directories": [disp(r) for r in created if after[r][0] == "dir" and not inside_out(r)][:4]},
+                      c_features(case, None)))
     # existing entries outside the output directory: untouched
     touched = []
     for rel in sorted(before):
@@ -1194,7 +1453,8 @@ def c_check_on(base, T, root, case):
         step2_new = [r for r in after if r not in mid and after[r][0] != "dir" and not r.startswith(meta_prefix)]
         collided = bool(nprovs[0] and nprovs[1] and not step2_new)
         info["nontrivial"] = collided
-        info["outcome"] = "C2:%s>%s:%s:%s:%s" % (case["a"]["kind"], case["b"]["kind"], case["a"].get("save_as"),
+        info["outcome"] = "C2:%s>%s:%s:%s:%s" % (case["a"].get("kind", case["a"]["family"]), case["b"].get("kind", case["b"]["family"]),
+                                              case["a"].get("save_as"),
                                               "collide" if collided else "apart", "V" if viols else "-")
     else:
         info["nontrivial"] = bool(content_files)
@@ -1226,6 +1486,20 @@ def c2_cases(root, tier, links):
                     yield {"part": "C2", "links": links,
                            "a": {"family": "file", "factory": fa, "kind": ka, "save_as": sa, "path": p},
                            "b": {"family": "file", "factory": fb, "kind": kb, "save_as": sa, "path": p}}
+    # a command / a labelled datasource and a file spec meeting at one archive location (the mangled command name)
+    MEET = "insights_commands/echo_a"
+    cmd = {"family": "command", "factory": "simple_command", "tokens": ["a"], "save_as": None}
+    dsp = {"family": "datasource_provider", "path": MEET, "save_as": None}
+    others = [cmd, dsp]
+    for x, y in ((cmd, dsp), (dsp, cmd)):
+        yield {"part": "C2", "links": links, "a": dict(x), "b": dict(y)}
+    for p in paths:
+        for f in ("simple_file", "first_file"):
+            for k in KINDS:
+                fs = {"family": "file", "factory": f, "kind": k, "save_as": MEET, "path": p}
+                for o in others:
+                    yield {"part": "C2", "links": links, "a": dict(fs), "b": dict(o)}
+                    yield {"part": "C2", "links": links, "a": dict(o), "b": dict(fs)}
     for pa in paths:
         for pb in paths:
             if pa == pb:
@@ -1257,11 +1531,18 @@ def c_cases_other(tier, family):
             for f in ("simple_command", "command_with_args", "foreach_execute", "container_execute"):
                 for sa in (SAVE_AS if f in ("simple_command", "command_with_args") else [None]):
                     yield {"part": "C", "links": [], "family": "command", "factory": f, "save_as": sa, "tokens": list(toks)}
+            if len(toks) == 1:
+                for cid in CIDS[1:]:
+                    yield {"part": "C", "links": [], "family": "command", "factory": "container_execute", "save_as": None,
+                           "tokens": list(toks), "cid": cid}
     else:
         n = BOUNDS[tier]["C_label_segments"]
-        for p in all_paths(LABEL_SEG[tier], 1, n):
+        for p in all_paths(LABEL_SEG[tier], 0, n):         # from the empty label / the path "/"
             for sa in (SAVE_AS if family == "datasource_provider" else [None]):
                 yield {"part": "C", "links": [], "family": family, "save_as": sa, "path": p}
+            if family == "container_file" and len(p.split("/")) <= 3:
+                for cid in CIDS[1:]:
+                    yield {"part": "C", "links": [], "family": family, "save_as": None, "path": p, "cid": cid}
 
 
 def run_C(unit, tier, res):
@@ -1342,8 +1623,16 @@ def run_M(unit, tier, res):
 def units(tier, seed):
     us = []
     for links in layouts(tier):
-        for slash in ((False, True) if len(links) <= 1 else (False,)):     # trailing-slash root: layouts with <= 1 link
-            us.append({"part": "A", "links": links, "slash": slash})
+        forms = ["plain"]
+        at_l = not links or (len(links) == 1 and links[0][0] == "l")
+        if len(links) <= 1 and (tier == "thorough" or at_l):
+            forms.append("slash")           # trailing-slash root: layouts with <= 1 link (quick: link at root/l only)
+        if at_l and (tier == "thorough" or not links or links[0][1] in QUICK_SYMLINK_ROOT_TARGETS):
+            forms.append("symlink")         # root given as a symlink (T/rootlink -> root)
+        if not links and tier == "thorough":
+            forms.append("symlink-slash")
+        for form in forms:
+            us.append({"part": "A", "links": links, "root_form": form})
     for variant in FILE_VARIANTS + CMD_VARIANTS:
         for kind in (KINDS if variant in FILE_VARIANTS else ["Text"]):
             for filtered in ((False, True) if kind == "Text" else (False,)):
@@ -1354,6 +1643,8 @@ def units(tier, seed):
     for name in REAL:
         us.append({"part": "B", "sub": "B2", "spec": name})
     us.append({"part": "B", "sub": "B4"})
+    us.append({"part": "B", "sub": "B5"})
+    us.append({"part": "B", "sub": "B6"})
     for links in C_LAYOUTS[tier]:
         for i in range(4):
             us.append({"part": "C", "family": "file", "links": links, "shard": i, "of": 4})
@@ -1403,6 +1694,10 @@ def replay(case):
         viols, _ = b3_check(case)
     elif part == "B4":
         viols, _ = b4_check(case)
+    elif part == "B5":
+        viols, _ = b5_check(case)
+    elif part == "B6":
+        viols, _ = b6_check(case)
     elif part in ("C", "C2"):
         viols = replay_C(case)
     elif part == "M":
